@@ -52,6 +52,7 @@ def sm_ri(m, with_seqs=True):
         ('S6_flag_keys', forall(lambda u: implies(U.has(u), (m._flags_key_map[u][0] == u) &
                                                   m._flags_key_set.has(m._flags_key_map[u].term())))),
     ]
+    cl.append(('S8_count', card_is(U, S.len)))
     if with_seqs:
         cl.append(('S5_seqs_are_ranks', forall(lambda u: (Q.has(u) == U.has(u)) &
                                                implies(U.has(u), Q[u] == pos[u] + 1))))
@@ -59,7 +60,7 @@ def sm_ri(m, with_seqs=True):
 
 
 SM_LABELS = ['S1_sorted_increasing', 'S2_sorted_in_uids', 'S3_uids_in_sorted', 'S4_cache_dom', 'S6_flag_keys',
-             'S5_seqs_are_ranks']
+             'S5_seqs_are_ranks', 'S8_count']
 
 
 def sm_clauses(sel, labels=SM_LABELS):
@@ -92,7 +93,7 @@ def _update_loop0():
         added = lambda u: exists(lambda i: (i >= 0) & (i < k) & (s.wrap(msgs[i]).uid == u))
         base = dict(sm_ri(m, with_seqs=False))
         out = [(l, base[l]) for l in ['S1_sorted_increasing', 'S2_sorted_in_uids', 'S3_uids_in_sorted',
-                                      'S4_cache_dom', 'S6_flag_keys']]
+                                      'S4_cache_dom', 'S6_flag_keys', 'S8_count']]
         out += [
             ('uids_grow', forall(lambda u: m._uids.has(u) == (p._uids.has(u) | added(u)))),
             ('seqs_untouched', m._seqs_cache == p._seqs_cache),
@@ -106,7 +107,7 @@ def _update_loop0():
                 m._flags_key_map[t[0]].term() == t.term())), sort=FK)),
         ]
         return out
-    labels = ['S1_sorted_increasing', 'S2_sorted_in_uids', 'S3_uids_in_sorted', 'S4_cache_dom', 'S6_flag_keys',
+    labels = ['S1_sorted_increasing', 'S2_sorted_in_uids', 'S3_uids_in_sorted', 'S4_cache_dom', 'S6_flag_keys', 'S8_count',
               'uids_grow', 'seqs_untouched', 'pending_untouched', 'prefix_stable', 'nothing_inserted',
               'flag_set_sound']
     return Loop(invariant=[(l, (lambda s, l=l: dict(inv(s))[l])) for l in labels])
@@ -569,3 +570,186 @@ any_selected = Contract(
     loops={0: Loop(invariant=[('all_before_are_readonly', lambda s: forall(lambda i: implies(
         (i >= 0) & (i < s.k), s.wrap(s.seq.elem(_t(i))).readonly)))])},
     modifies=[], raises_only=(), pure=True)
+
+
+# ---- SelectedMailbox.add_updates / set_messages: what they establish for the next _compare (C01 composition)
+from .flags import sess_remove  # noqa: E402
+
+
+def _in_msgs(s, u):
+    return exists(lambda i: (i >= 0) & (i < s.messages.len) & (s.wrap(s.messages[i]).uid == u))
+
+
+def _sm(s):
+    return s.self._messages
+
+
+_ADD_REQ = sm_clauses(_sm) + [
+    ('S7_flag_set_sound', lambda s: flag_set_sound(_sm(s))),
+    ('msg_flags_key_has_uid', lambda s: forall(lambda i: implies(
+        (i >= 0) & (i < s.messages.len), s.messages[i].flags_key[0] == s.messages[i].uid)))]
+
+add_updates = Contract(
+    'C01', F, 'SelectedMailbox.add_updates', params=dict(self=SEL, messages=ListS(MsgC), expunged=ListS(INT)),
+    requires=_ADD_REQ,
+    ensures=sm_clauses(_sm) + [
+        ('S7_flag_set_sound', lambda s: flag_set_sound(_sm(s))),
+        ('hidden_expunges_stay_in_view', lambda s: implies(
+            s.self._hide_expunged, forall(lambda u: _sm(s)._uids.has(u) == (s.old.self._messages._uids.has(u) | _in_msgs(s, u))))),
+        ('visible_expunges_leave_the_view', lambda s: implies(
+            ~s.self._hide_expunged, forall(lambda u: _sm(s)._uids.has(u) == (
+                (s.old.self._messages._uids.has(u) | _in_msgs(s, u)) & ~_in_list(s.expunged, u) &
+                ~s.old.self._messages._pending_remove.has(u))))),
+        ('hide_flag_untouched', lambda s: s.self._hide_expunged == s.old.self._hide_expunged),
+    ],
+    calls={'self._messages._update': sm_update, 'self._messages._remove': sm_remove, 'self._session_flags.remove': sess_remove},
+    modifies=['self._messages', 'self._session_flags'], raises_only=(), returns=NoneS())
+CONTRACTS_LINK = [add_updates]
+
+
+# ---- _Frozen.__init__: the frozen view of a SelectedMailbox whose SynchronizedMessages satisfies its invariant is a
+#      frozen view in the sense of _compare's precondition (ghost g_sorted := the messages' _sorted at that moment)
+
+def _uids_copy(ex, frame, e, base=None):
+    m = ex.eval(e.func.value.value, frame)          # messages (record view)
+    rec = unview(m) if not isinstance(m, VRec) else m
+    ex.st.ghost['frozen.src_sorted'] = ex.st.store[rec.rid]['_sorted']
+    u = ex.st.store[rec.rid]['_uids']
+    return VSet(u.arr, u.elem)
+
+
+def _frozen_uids_hook(st, rec, old, new):
+    src = st.ghost.get('frozen.src_sorted')
+    if src is not None:
+        st.store[rec.rid]['g_sorted'] = VList(src.n, src.arr, INT)
+
+
+Frozen.hooks['uids'] = _frozen_uids_hook
+
+
+def _sflags_items(ex, frame, e, base=None):
+    """ASSUMED model of frozenset(session_flags.flags.items()): a set of (uid, flags) pairs whose uids are keys of the map"""
+    sess = frame.env['session_flags']
+    rec = unview(sess) if not isinstance(sess, VRec) else sess
+    fl = ex.st.store[rec.rid]['_flags']
+    r = SetS(FK).fresh('sflags')
+    t = z3.Const(fresh_name('t'), FK.z3())
+    ex.assume(z3.ForAll([t], z3.Implies(r.arr[t], fl.dom[FK.z3().accessor(0, 0)(t)])))
+    return r
+
+
+from pyvc.engine import unview  # noqa: E402
+
+frozen_init = Contract(
+    'C01', F, '_Frozen.__init__', params=dict(self=Frozen, selected=SEL),
+    requires=sm_clauses(lambda s: s.selected._messages) + [('S7_flag_set_sound', lambda s: flag_set_sound(s.selected._messages))],
+    ensures=frozen_clauses(lambda s: s.self, 'new') + [
+        ('copies_the_view', lambda s: (s.self.uids == s.selected._messages._uids) &
+         (s.self.seqs_cache == s.selected._messages._seqs_cache) & (s.self.flags == s.selected._messages._flags_key_set) &
+         (s.self.is_deleted == s.selected._is_deleted)),
+        ('selection_untouched', lambda s: s.selected._messages._uids == s.old.selected._messages._uids)],
+    calls={'super().__init__': lambda ex, frame, e, base=None: VNone(), 'messages._uids.copy': _uids_copy, 'frozenset': _sflags_items},
+    inline={'SelectedMailbox.messages', 'SelectedMailbox.session_flags', 'SessionFlags.recent_uids', 'SessionFlags.flags'},
+    modifies=['self'], raises_only=(), returns=NoneS())
+CONTRACTS_LINK = [add_updates, frozen_init]
+
+
+# ---- SelectedMailbox.fork: the preconditions of _compare follow from the invariant that links _prev to the current state
+
+SELP = RecS('SelectedMailbox', pyclass=(F, 'SelectedMailbox'), _hide_expunged=BOOL, _messages=SM,
+            _session_flags=SessS, _silenced_flags=SetS(FK), _silenced_sflags=SetS(FK),
+            _readonly=BOOL, _mailbox_id=Oid, _lookup=NameR, _permanent_flags=PermS, _is_deleted=BOOL,
+            _mod_sequence=OptS(INT), _prev=Frozen, _selected_set=RefS('SelSetObj'))
+
+from pyvc.engine import Scope, Alias, CONTAINERS  # noqa: E402
+
+
+def _frozen_ctor(ex, frame, e, base=None):
+    """callee contract of _Frozen.__init__ (frozen_init, proved above), applied: a new frozen record that copies the view;
+    its requires are obliged at this call site, its ensures assumed"""
+    args, kw = ex.eval_args(e, frame)
+    sel = args[0]
+    rec = unview(sel) if not isinstance(sel, VRec) else sel
+    name = ex.c.name
+    sm = ex.st.store[rec.rid]['_messages']
+    sc = Scope(ex.st, {'selected': rec})
+    for label, cl in frozen_init.requires:
+        ex.oblige(f'{name}/call:_Frozen/requires/{label}', _b(cl(sc)))
+    smf = ex.st.store[sm.rid]
+    fr = ex.st.new_record(Frozen, 'frozen', values=dict(
+        uids=VSet(smf['_uids'].arr, INT), seqs_cache=VMap(smf['_seqs_cache'].dom, smf['_seqs_cache'].val, INT, INT),
+        flags=VSet(smf['_flags_key_set'].arr, FK), is_deleted=ex.st.store[rec.rid]['_is_deleted'],
+        g_sorted=VList(smf['_sorted'].n, smf['_sorted'].arr, INT)))
+    sc2 = Scope(ex.st, {'self': fr, 'selected': rec}, Scope(ex.st.snapshot(), {'self': fr, 'selected': rec}))
+    for label, cl in frozen_init.ensures:
+        if label.startswith(('F5', 'F6')) or label.endswith('.new') and label[:2] in ('F5', 'F6'):
+            ex.assume(cl(sc2))
+    # the session-flag pairs of the frozen view: keys of the session flag map (frozen_init's ASSUMED items model)
+    sess = ex.st.store[rec.rid]['_session_flags']
+    fl = ex.st.store[sess.rid]['_flags']
+    t = z3.Const(fresh_name('t'), FK.z3())
+    ex.assume(z3.ForAll([t], z3.Implies(ex.st.store[fr.rid]['sflags'].arr[t], fl.dom[FK.z3().accessor(0, 0)(t)])))
+    ex.st.ghost['fork.frozen'] = fr
+    return fr
+
+
+def _compare_call(ex, frame, e, base=None):
+    """modular call of _compare: its preconditions are obligations of this call site (its result is the response list)"""
+    args, kw = ex.eval_args(e, frame)
+    name = ex.c.name
+    me = ex.eval(e.func.value, frame)
+    names = {'self': me, 'before': args[0], 'after': args[1], 'with_uid': args[2]}
+    sc = Scope(ex.st, names)
+    for label, cl in compare.requires:
+        ex.oblige(f'{name}/call:_compare/requires/{label}', _b(cl(sc)))
+    ex.st.events.append('compare')
+    return RefS('UntaggedList').fresh('untagged')
+
+
+def _sview(s):
+    return s.self._messages
+
+
+FORK_INV = frozen_clauses(lambda s: s.self._prev, 'prev') + sm_clauses(_sview) + [
+    ('S7_flag_set_sound', lambda s: flag_set_sound(_sview(s))),
+    ('hidden_expunges_stay_in_view', lambda s: implies(s.self._hide_expunged, s.self._prev.uids.subset(_sview(s)._uids))),
+    ('new_uids_above_old', lambda s: forall(lambda a, b: implies(
+        _sview(s)._uids.has(a) & ~s.self._prev.uids.has(a) & s.self._prev.uids.has(b), a > b), n=2)),
+    ('session_flags_only_for_messages_in_view', lambda s: forall(lambda u: implies(
+        s.self._session_flags._flags.has(u), _sview(s)._uids.has(u)))),
+]
+
+fork = Contract(
+    'C01', F, 'SelectedMailbox.fork', variant='after-a-previous-fork', params=dict(self=SELP, command=RefS('Cmd')),
+    requires=FORK_INV,
+    ensures=[('compared_against_the_previous_frozen_view', lambda s: VBool('compare' in s._st.events)),
+             ('selection_untouched', lambda s: (_sview(s)._uids == s.old.self._messages._uids) &
+              (s.self._hide_expunged == s.old.self._hide_expunged))],
+    calls={'_Frozen': _frozen_ctor, 'self._compare': _compare_call, 'type': lambda ex, frame, e, base=None: VConst('cls'),
+           'cls': lambda ex, frame, e, base=None: (ex.eval_args(e, frame), RefS('SelectedCopy').fresh('copy'))[1],
+           'getattr': lambda ex, frame, e, base=None: VBool(z3.Bool(fresh_name('with_uid')))},
+    modifies=[], raises_only=())
+CONTRACTS_LINK = [add_updates, frozen_init, fork]
+
+
+# ---- add_updates preserves the fork invariant (so it holds at the next fork, however many updates arrive in between),
+#      given what the backend guarantees about the updates it delivers (C04: a uid it has not delivered before lies above
+#      every uid it delivered earlier; C02/C17: session flags are only set for messages in view)
+add_updates_inv = Contract(
+    'C01', F, 'SelectedMailbox.add_updates', variant='keeps-the-fork-invariant',
+    params=dict(self=SELP, messages=ListS(MsgC), expunged=ListS(INT)),
+    requires=FORK_INV + [
+        ('msg_flags_key_has_uid', lambda s: forall(lambda i: implies(
+            (i >= 0) & (i < s.messages.len), s.messages[i].flags_key[0] == s.messages[i].uid))),
+        ('ASSUMED_backend_delivers_new_uids_above_everything_delivered_before', lambda s: forall(lambda a, b: implies(
+            _in_msgs(s, a) & ~_sview(s)._uids.has(a) & (s.self._prev.uids.has(b) | _sview(s)._uids.has(b)), a > b), n=2)),
+        # a uid whose expunge was deferred (hidden) leaves the view at the next visible update, but only the uids listed
+        # in THIS update lose their session flags: sound only if such a uid carries none or is listed again (maildir's
+        # set_messages re-lists it; the dict backend keeps no session flags but \Recent) -- see DESIGN.md C01
+        ('ASSUMED_deferred_expunges_carry_no_session_flags_or_are_listed_again', lambda s: implies(
+            ~s.self._hide_expunged, forall(lambda u: implies(
+                _sview(s)._pending_remove.has(u) & s.self._session_flags._flags.has(u), _in_list(s.expunged, u)))))],
+    ensures=FORK_INV,
+    calls={'self._messages._update': sm_update, 'self._messages._remove': sm_remove, 'self._session_flags.remove': sess_remove},
+    modifies=['self._messages', 'self._session_flags'], raises_only=(), returns=NoneS())
+CONTRACTS_LINK = [add_updates, frozen_init, fork, add_updates_inv]
